@@ -1,3 +1,14 @@
+/- C04 part R (with C11): rotations end to end at the model level.  Helper names carry the prefix `c04r_`; user-facing theorems are at the
+   end under "Property theorems".
+
+   R1  exact-integer decoding commutes with σ_g (`c04k_sigma`, index/sign rule `c04r_sigma_rule`): `c04r_bfvDecode_sigma`, `c04r_bgvDecode_sigma`.
+   R2  plaintext level: the model's `galoisApply` moves the slots of the model's `batchDecode` (rows rotate for g ≡ 3^s, rows swap for 2N−1,
+       signed steps through `eltFromStep`).
+   R3  ciphertext level: `applyGalois` against `Spec.phase` (CRT-merged form of C04K's per-modulus statement), decryption of the result
+       = σ_g(decryption of the input) coefficient-wise and slot-wise, BFV (coefficient form) and BGV (NTT form); composed version: chains of
+       `applyGalois` steps (`c04r_applyChain`), `rotatePlan` multiplies up to 3^steps (`c04r_rotatePlan_ok`), noises add.
+   R4  CKKS: integer-level statement (rotate_vector = σ_{3^s}, conjugation = σ_{2N−1}).
+   Non-vacuity: the NonVac world one level down (N = 4, q = 97, P = 113, t = 17) with a genuine Galois key for g = 3. -/
 import Heathcliff.Proofs.C04K
 import Heathcliff.Proofs.C04M
 import Heathcliff.Proofs.C11N
@@ -1387,6 +1398,13 @@ theorem c04r_rotatePlan_bfv_nonvacuous :
       exact ⟨c04r_exGalKey, fun _ _ _ _ => le_refl _⟩)
     hplan rfl c04r_exCanon c04r_exNoise (c04r_exMargin _)).2.2
 
+
+/-- the BGV-specific bundles are satisfiable on the same world: same tables, `c04t_BgvData` (14·113 ≡ 1 mod 17), plain modulus -/
+example : c04r_SameTables nv_kl nv_level1 ∧ c04t_BgvData nv_kl ∧ nv_kl.t.value = nv_level1.t.value := by
+  refine ⟨fun j hj => ?_, ⟨nv_m17_wf, by decide, by decide⟩, rfl⟩
+  have : j < 1 := hj
+  interval_cases j
+  rfl
 
 /-! ### refusals along the composed rotation -/
 
